@@ -63,6 +63,15 @@ def run_history(h, props=None):
                     m.environment.remove_agent(op[1])
             elif op[0] == 'set':
                 vals[op[1]] = op[2]
+            elif op[0] == 'retire':
+                # a one-shot system queued just ahead of the collector retires itself when it runs (clean_up): the
+                # collector still has its turn in that timestep
+                class Once(System):
+                    _verif_user = True
+
+                    def execute(self):
+                        self.clean_up()
+                m.systems.add_system(Once(f'once{k}', m))
             elif op[0] == 'step':
                 t = m.systems.timestep
                 due = start <= t <= (BIG if end is None else end) and (t - start) % freq == 0
@@ -161,6 +170,9 @@ def histories(seed, budget, prop='C17'):
             yield ('agent', incl, comp, (0, None, 1),
                    [('step',), ('join', 'a', 1), ('step',), ('join', 'b', None), ('step',), ('set', 'b', 5), ('step',),
                     ('leave', 'a'), ('step',), ('set', 'b', None), ('step',), ('step',), ('join', 'a', 0), ('step',)])
+    for incl in (False, True):
+        yield ('agent', incl, 'count', (0, None, 1),
+               [('join', 'a', 1), ('step',), ('retire',), ('step',), ('step',), ('retire',), ('retire',), ('step',), ('step',)])
     for start, end, freq in ((2, 5, 2), (0, 0, 1), (1, None, 3), (3, 2, 1)):
         yield ('agent', True, 'count', (start, end, freq), [('join', 'a', 1)] + [('step',)] * 8)
     for wc in (0, 1, 2, 3):
@@ -184,6 +196,8 @@ def histories(seed, budget, prop='C17'):
                     ops.append(('leave', rng.choice('abc')))
                 elif r < 0.55:
                     ops.append(('set', rng.choice('abc'), rng.choice([None, 2, 3])))
+                elif r < 0.6:
+                    ops.append(('retire',))
                 else:
                     ops.append(('step',))
             yield ('agent', rng.random() < 0.5, rng.choice(['nofunc', 'none', 'count', 'same', 'empty', 'odict']),
